@@ -141,6 +141,14 @@ def rand_field(r, name, max_extent=4, data_mode='any', cfg_mode='any', sizes=Non
     return toks
 
 
+class _Failed(dict):
+    """stacks that cannot be used: iteration / items() give the ones to REPORT, membership also covers the ones set aside"""
+    set_aside = frozenset()
+
+    def __contains__(self, k):
+        return dict.__contains__(self, k) or k in self.set_aside
+
+
 class StackRunner:
     """builds the model driver and the harness shards for a set of stacks, runs case lines.
     Stacks the compiler rejects are localised with one -fsyntax-only pass per stack of the failing
@@ -196,6 +204,14 @@ class StackRunner:
                     for s in sh:
                         self.failed.setdefault(s, f'[{cfg} build only] ' + log)
         self.conversions = convs
+        # field_view states a kind of its own: the non-owning data must fit 256 bytes.  A stack the grammar draws that
+        # exceeds it is ill-kinded by that stated bound, not a defect: it is set aside (and counted), never reported
+        self.too_large = {s: l for s, l in self.failed.items() if 'Storage type is too large' in l}
+        rest = _Failed({s: l for s, l in self.failed.items() if s not in self.too_large})
+        rest.set_aside = set(self.too_large)       # `in` still says "cannot be used"; iteration reports only real failures
+        self.failed = rest
+        if self.too_large:
+            chk.cov['stacks_set_aside_view_over_256_bytes'] = chk.cov.get('stacks_set_aside_view_over_256_bytes', 0) + len(self.too_large)
 
     def run(self, lines):
         """lines: 'id stack op ...' ; returns (model answers, {config: impl answers})"""
